@@ -177,6 +177,19 @@ func (r *Report) HasViolation(sig string) bool {
 	return ok
 }
 
+// FirstViolation returns the kept counterexample with the smallest signature, or nil.
+func (r *Report) FirstViolation() *Violation {
+	r.mu.Lock()
+	defer r.mu.Unlock()
+	var best *Violation
+	for _, v := range r.bySig {
+		if best == nil || v.Signature < best.Signature {
+			best = v
+		}
+	}
+	return best
+}
+
 func (r *Report) ViolationCount() int {
 	r.mu.Lock()
 	defer r.mu.Unlock()
